@@ -178,6 +178,8 @@ fn stmts(r: &mut Rng, d: u32, in_loop: bool) -> String {
                 }
                 s += "{% endfor %}";
             }
+            // a map literal whose entry may be undefined, read back through a path
+            6 if r.chance(1, 3) => s += &format!("{{% set q = {{\"b\": {}, \"c\": {{\"b\": {}}}}} %}}", path(r), path(r)),
             6 => s += &format!("{{% set q = {} %}}", expr(r, 1)),
             7 if d > 0 => s += &format!("{{% set q %}}{}{{% endset %}}", stmts(r, d - 1, false)),
             8 if d > 0 => s += &format!("{{% filter upper %}}{}{{% endfilter %}}", stmts(r, d - 1, false)),
@@ -207,11 +209,23 @@ fn mk(depth: u8) -> V {
 }
 
 fn path_contexts() -> Vec<Context> {
-    (0..7)
+    (0..9)
         .map(|kx| {
             let mut c = Context::new();
             match kx {
                 0 => {}
+                // entries that are present but hold an undefined value, at the last and at an inner position of the paths
+                7 => {
+                    let k = |x: &str| K::Str(x.to_string());
+                    c.insert_value("a", V::Map(vec![(k("b"), V::Undef), (k("c"), V::Map(vec![(k("b"), V::Undef), (k("c"), V::I64(1))]))]).to_tera());
+                    c.insert_value("u", V::Map(vec![(k("b"), V::Map(vec![(k("b"), V::Map(vec![(k("b"), V::Undef)])), (k("c"), V::Undef)]))]).to_tera());
+                }
+                8 => {
+                    let k = |x: &str| K::Str(x.to_string());
+                    c.insert_value("a", V::Map(vec![(k("b"), V::Map(vec![(k("c"), V::Undef), (k("b"), V::None)])), (k("zz"), V::Undef)]).to_tera());
+                    c.insert_value("x", V::Map(vec![(k("c"), V::Undef), (k("b"), V::Undef)]).to_tera());
+                    c.insert_value("q", V::Undef.to_tera());
+                }
                 1 => c.insert_value("a", tera::Value::none()),
                 2 => c.insert_value("a", mk(0).to_tera()),
                 3 => c.insert_value("a", mk(1).to_tera()),
